@@ -568,7 +568,13 @@ class Interp:
             name = fr.fn.name + '::promoted[%d]' % c.value
             pf = self.m.consts.get(name)
             if pf is None:
-                raise Unsupported("promoted " + name)
+                i = name.find('<impl at ')
+                key = name[i:] if i >= 0 else '::' + name.split('::', 1)[-1] if '::' in name else name
+                cands = [v for k, v in self.m.consts.items() if k.endswith(key)]
+                if len(cands) != 1:
+                    raise Unsupported("promoted " + name)
+                pf = cands[0]
+                self.m.consts[name] = pf
             return self.eval_const_fn(pf)
         if k == 'float':
             return OpaqueV('float', c.value)
@@ -597,9 +603,34 @@ class Interp:
         key = ('constfn', fn.name)
         v = self.heap.get(key)
         if v is None:
-            v = self.call_mir(fn, [])
-            # promoted values are references to static data: keep referent alive in a heap cell
+            v = self.call_mir(fn, [], rescue=True)
             self.heap[key] = v
+        return v
+
+    def rescue(self, v, fr, memo):
+        """promoted constants return references to their own locals: move those locals to heap cells"""
+        if isinstance(v, RefV):
+            r = v.addr.root
+            if r[0] == 'L' and r[1] == fr.no:
+                if r[2] not in memo:
+                    cell = self.alloc(UNIT)
+                    memo[r[2]] = cell
+                    self.heap[cell.root[1]] = self.rescue(fr.locals[r[2]], fr, memo)
+                return RefV(Addr(memo[r[2]].root, v.addr.proj))
+            return v
+        if isinstance(v, StructV):
+            return StructV(v.name, tuple(self.rescue(x, fr, memo) for x in v.f))
+        if isinstance(v, TupleV):
+            return TupleV(tuple(self.rescue(x, fr, memo) for x in v.f))
+        if isinstance(v, EnumV):
+            return EnumV(v.ename, v.vname, v.idx, tuple(self.rescue(x, fr, memo) for x in v.f))
+        if isinstance(v, VecV):
+            return VecV(tuple(self.rescue(x, fr, memo) for x in v.e))
+        if isinstance(v, SliceV):
+            r = v.addr.root
+            if r[0] == 'L' and r[1] == fr.no:
+                nr = self.rescue(RefV(v.addr), fr, memo)
+                return SliceV(nr.addr, v.start, v.end)
         return v
 
     def operand(self, fr, op):
@@ -807,7 +838,7 @@ class Interp:
         raise Unsupported("aggregate " + kind)
 
     # ---- execution
-    def call_mir(self, fn, args):
+    def call_mir(self, fn, args, rescue=False):
         ctx = self.ctx
         if len(self.frames) > 200:
             raise BoundExceeded("call depth")
@@ -878,7 +909,10 @@ class Interp:
                             fr.locals[t.dest.local] = r
                     bb = t.target
                 elif k == 'return':
-                    return fr.locals.get(0, UNIT)
+                    rv = fr.locals.get(0, UNIT)
+                    if rescue:
+                        rv = self.rescue(rv, fr, {})
+                    return rv
                 elif k == 'drop':
                     self.drop_place(fr, t.place)
                     bb = t.target
